@@ -16,6 +16,7 @@ import (
 	"testing"
 
 	"github.com/apmckinlay/gsuneido/core"
+	"github.com/apmckinlay/gsuneido/db19/meta/schema"
 	lib "github.com/apmckinlay/gsuneido/util/zzverif"
 )
 
@@ -27,6 +28,8 @@ func TestVerifC08Fkeys(t *testing.T) {
 	n := lib.N(300)
 	rawKeyRangeProbe(tr)
 	selfLoopUpdateProbe(tr)
+	overlapCascadeProbe(tr)
+	cycleTargetProbe(tr)
 	for hi := 0; hi < n; hi++ {
 		h := &vHarness{tr: tr, r: r, raw: true, th: &core.Thread{},
 			alpha: []string{"", "", "a", "b", "a\x00", "\x00", "a\x00\x00b", "\x00\x01"}}
@@ -318,6 +321,87 @@ func rawKeyRangeProbe(tr *lib.Trace) {
 	rows := h.scan(h.db.NewReadTran(), 1)
 	if msg != "" || len(rows) != 1 || rows[0].row[0] != "a\x00" {
 		tr.Fail("fk-raw-key-range", fmt.Sprintf("t0 key(c0), t1 key(c0) in t0 cascade, rows a and a\\x00 in both; delete t0 a: %q, t1 afterwards %v (expected only the row x6100)", msg, rows))
+	}
+}
+
+// overlapCascadeProbe (proposed KF-C08-4, Props.C08.fk_inv_overlap_counter): a cascade rewrites a
+// column that a second foreign key of the row shares; update(…, block=false) does not re-check it.
+// cycleTargetProbe (KF-C08-1 through two tables, Props.C08.fk_inv_cycle_counter): the row the new
+// foreign key value points to is re-keyed by the cascade of the same update.
+// Both only COUNT their outcome (histogram keys probe:…) until the findings are registered in
+// known_findings.json; then `tr.Count` becomes `h.fail` with the signature given in findings/C08.md.
+func overlapCascadeProbe(tr *lib.Trace) {
+	h := &vHarness{tr: tr, raw: true, th: &core.Thread{}}
+	h.sch = vSchema{"probe", []vTable{
+		{2, []vIndex{{mode: 'k', cols: []int{0}}}},
+		{2, []vIndex{{mode: 'k', cols: []int{0, 1}}}},
+		{3, []vIndex{{mode: 'k', cols: []int{0}},
+			{mode: 'i', cols: []int{1}, fk: &vFk{0, 0, 1}},
+			{mode: 'i', cols: []int{1, 2}, fk: &vFk{1, 0, 0}}}}}}
+	for t := range h.sch.tables {
+		core.Global.TestDef("Trigger_"+vTname(t), nil)
+		core.Global.SetNoDef("Trigger_" + vTname(t))
+	}
+	h.db = vOpen()
+	defer h.db.Close()
+	h.sch.create(h.db)
+	ut := h.db.NewUpdateTran()
+	ut.Output(h.th, "t0", h.mkrec(vRow{"a", ""}))
+	ut.Output(h.th, "t1", h.mkrec(vRow{"a", "x"}))
+	ut.Output(h.th, "t2", h.mkrec(vRow{"k", "a", "x"}))
+	ut.Commit()
+	ut = h.db.NewUpdateTran()
+	msg := lib.Catch(func() { ut.Update(h.th, "t0", h.scan(ut, 0)[0].off, h.mkrec(vRow{"b", ""})) })
+	res := ut.Complete()
+	if msg != "" || res != "" {
+		tr.Count("probe:overlap-cascade=refused")
+		return
+	}
+	if d, _, _ := h.dangling(h.snapshot(h.db.NewReadTran())); d != "" {
+		tr.Count("probe:overlap-cascade=dangling-fk:upd-cascade-shared-column")
+		tr.Sample("KF-C08-4 " + d)
+	} else {
+		tr.Count("probe:overlap-cascade=ok")
+	}
+}
+
+func cycleTargetProbe(tr *lib.Trace) {
+	h := &vHarness{tr: tr, raw: true, th: &core.Thread{}}
+	h.sch = vSchema{"probe", []vTable{
+		{2, []vIndex{{mode: 'k', cols: []int{0}}}},
+		{2, []vIndex{{mode: 'k', cols: []int{0}, fk: &vFk{0, 0, 1}}}}}}
+	for t := range h.sch.tables {
+		core.Global.TestDef("Trigger_"+vTname(t), nil)
+		core.Global.SetNoDef("Trigger_" + vTname(t))
+	}
+	h.db = vOpen()
+	defer h.db.Close()
+	h.sch.create(h.db)
+	// t0 gets its reference to the later table t1 afterwards: alter t0 create index(c1) in t1(c0)
+	if msg := lib.Catch(func() {
+		h.db.AlterCreate(&schema.Schema{Table: "t0", Indexes: []schema.Index{{Mode: 'i', Columns: vCols([]int{1}),
+			Fk: schema.Fkey{Table: "t1", Columns: vCols([]int{0}), Mode: 0}}}})
+	}); msg != "" {
+		tr.Count("probe:cycle-target=alter-refused")
+		return
+	}
+	h.sch.tables[0].idxs = append(h.sch.tables[0].idxs, vIndex{mode: 'i', cols: []int{1}, fk: &vFk{1, 0, 0}})
+	ut := h.db.NewUpdateTran()
+	ut.Output(h.th, "t0", h.mkrec(vRow{"a", ""}))
+	ut.Output(h.th, "t1", h.mkrec(vRow{"a", ""}))
+	ut.Commit()
+	ut = h.db.NewUpdateTran()
+	msg := lib.Catch(func() { ut.Update(h.th, "t0", h.scan(ut, 0)[0].off, h.mkrec(vRow{"b", "a"})) })
+	res := ut.Complete()
+	if msg != "" || res != "" {
+		tr.Count("probe:cycle-target=refused")
+		return
+	}
+	if d, _, _ := h.dangling(h.snapshot(h.db.NewReadTran())); d != "" {
+		tr.Count("probe:cycle-target=dangling-fk:upd-target-rekeyed")
+		tr.Sample("KF-C08-1b " + d)
+	} else {
+		tr.Count("probe:cycle-target=ok")
 	}
 }
 
